@@ -36,6 +36,8 @@ type FakeDynamo struct {
 	Tables map[string]*DynTable
 	Region string
 	Log    []string
+	// Unsupported collects expressions outside the fake's grammar (reported as a machinery gap, not a violation).
+	Unsupported []string
 }
 
 type DynTable struct {
@@ -176,6 +178,7 @@ func (f *FakeDynamo) PutItem(table *string, item map[string]*AV, cond *string, n
 		for _, part := range regexp.MustCompile(`(?i)\s+and\s+`).Split(*cond, -1) {
 			m := reNotExists.FindStringSubmatch(part)
 			if m == nil {
+				f.Unsupported = append(f.Unsupported, "ConditionExpression "+*cond)
 				return validation("unsupported ConditionExpression %q", *cond)
 			}
 			attr, derr := resolveName(m[1], names)
@@ -240,12 +243,14 @@ func (f *FakeDynamo) Query(table *string, keyCond *string, names map[string]stri
 			}
 			v, ok := values[m[3]]
 			if !ok || attr != "Created" || v.N == nil {
+				f.Unsupported = append(f.Unsupported, "KeyConditionExpression "+*keyCond)
 				return nil, validation("unsupported key condition %q", p)
 			}
 			n, _ := strconv.ParseInt(*v.N, 10, 64)
 			sorts = append(sorts, sc{m[2], n})
 			continue
 		}
+		f.Unsupported = append(f.Unsupported, "KeyConditionExpression "+*keyCond)
 		return nil, validation("unsupported KeyConditionExpression %q", *keyCond)
 	}
 	if pk == nil {
